@@ -52,12 +52,50 @@ def usable(rep, r):
 
 
 def finish_t(rep, results, step_kind="step"):
+    return rep.finish(accumulate_t(rep, results, step_kind))
+
+
+def line_level_part(rep, specs, gran="line", shares=2, key="line_level_one_preemption"):
+    """Engine-L part of a check that is not otherwise an engine-T check: explore the given two-call scenarios with one
+    pre-emption at every source line and report violations / coverage under `key`."""
+    jobs = []
+    for sp in specs:
+        jobs += tscen.line_level(sp, gran, shares)
+    results = run_scenarios(rep, jobs)
+    sub = type("Sub", (), {})()
+    sub.coverage = {}
+    sub.violation = rep.violation
+    sub.tier = rep.tier
+    accumulate_t(sub, results)
+    ll = sub.coverage.get("line_level_one_preemption", {})
+    ll["distinct_terminal_observations"] = sub.coverage.get("distinct_terminal_observations")
+    ll["scenario_names"] = sorted({sp["name"] for sp in specs})
+    rep.coverage[key] = ll
+    return ll
+
+
+def accumulate_t(rep, results, step_kind="step"):
     cov = rep.coverage
     tot = {"executions": 0, "states": 0, "transitions": 0, "terminals": 0}
     per = {}
     vac = []
     samples = []
     results = [r for r in results if usable(rep, r)]
+    ll = {"scenarios": set(), "jobs": 0, "executions": 0, "preemption_points": 0, "events_executed": 0, "capped": []}
+    for r in results:
+        if r["spec"].get("engine") == "L":
+            ll["scenarios"].add(r["spec"]["name"])
+            ll["jobs"] += 1
+            ll["executions"] += r["executions"]
+            ll["events_executed"] += r["transitions"]
+            ll["granularity"] = r["spec"].get("gran", "line")
+            if r["spec"]["chunk"][0] == 0:
+                ll["preemption_points"] += r.get("preemption_points") or 0
+            if r["capped"]:
+                ll["capped"].append(r["name"])
+    if ll["jobs"]:
+        ll["scenarios"] = len(ll["scenarios"])
+        cov["line_level_one_preemption"] = ll
     for r in results:
         for k in tot:
             tot[k] += r[k]
@@ -75,6 +113,8 @@ def finish_t(rep, results, step_kind="step"):
         for v, ch in r["step_violations"]:
             rep.violation({"scenario": r["name"], "kind": step_kind, "what": v},
                           {"spec": r["spec"], "schedule": ch, "what": v})
+        if r["spec"].get("engine") == "L":
+            continue  # aggregated under line_level_one_preemption
         per[r["name"]] = {"executions": r["executions"], "states": r["states"], "transitions": r["transitions"],
                           "terminal_observations": r["terminals"], "sequential_observations": r["sequential_terminals"],
                           "verdicts": verd, "passes": r.get("passes"), "capped": r["capped"],
@@ -85,7 +125,7 @@ def finish_t(rep, results, step_kind="step"):
             samples.append({"scenario": r["name"], "schedule": r["verdicts"][0]["schedule"][:60],
                             "observation": r["verdicts"][0]["terminal"]})
     cov.update({
-        "scenarios": len(results), "executions": tot["executions"], "states": tot["states"],
+        "scenarios": len([r for r in results if r["spec"].get("engine") != "L"]), "executions": tot["executions"], "states": tot["states"],
         "transitions": tot["transitions"], "traces_validated_against_impl": tot["executions"],
         "distinct_terminal_observations": tot["terminals"],
         "scenarios_with_single_observation": vac,
@@ -93,7 +133,7 @@ def finish_t(rep, results, step_kind="step"):
         "exhaustive": not any(r["capped"] for r in results),
         "per_scenario": per,
     })
-    return rep.finish(samples)
+    return samples
 
 
 def replay_schedule(rep):
@@ -104,7 +144,10 @@ def replay_schedule(rep):
     sc = tscen.make_scenario(r["spec"])
     root = os.path.join(common.scratch(), "store")
     trace = []
-    ex = engine_t.run_execution(sc, root, r["schedule"], set(), explore=False, trace_out=trace)
+    ex = tscen.run_schedule(sc, root, r["schedule"], trace_out=trace)
+    if r["schedule"] and r["schedule"][0] == "L":
+        print("  line-level schedule: %s runs first and is pre-empted at its event %s: %s" % (
+            r["schedule"][1], r["schedule"][2], ex.preempted))
     for n, op in trace:
         print("  %-3s %s" % (n, op))
     term = sc.terminal(ex, root)
